@@ -6,8 +6,9 @@ dictionary, `tags is None` being the empty dictionary — provided the store's i
 (documented: "If the file has no tags at all, a KeyError is raised").  Instances: APEv2 files,
 EasyMP4 files.  Where invalid keys raise something else (Vorbis comments: `ValueError`) the
 tag-less file deviates from its own tags: `file_vc_invalid_key_witness`.
-The real-object side of this statement is checked by harness/props/c16.py (kinds FLAC-proxy,
-MP3-proxy, with and without tags); there is no separate driver command.
+The real objects are checked by harness/props/c16.py (kinds FLAC-proxy, MP3-proxy, with and
+without tags) and tied to `fileImpl` / `fileStep` by harness/dict_tie_x.py (driver kinds `filevc`,
+`fileid3`, `fileape` of the command `dictx`; the initial tags travel in the request).
 -/
 import MutagenModel.Proofs.DictFile
 import MutagenModel.Proofs.DictEasyMp4
